@@ -257,7 +257,7 @@ func scalarPattern(rng *Rand, bt ref.BaseType) uint64 {
 	}
 }
 
-var stringPool = []string{"\uFFFDreplacement\uFFFD character inside a long string \uFFFD", "ab\uFFFD", "", "a", "Garmin", "fēnix 6", "日本語テキスト", "éàü", "Edge 1030 Plus", "x\xffy", "tab\there", "0123456789ABCDEF0123456789abcdef0123456789"}
+var stringPool = []string{"\uFFFDreplacement\uFFFD character inside a long string \uFFFD", "ab\uFFFD", "", "a", "Garmin", "fēnix 6", "日本語テキスト", "éàü", "Edge 1030 Plus", "x\xffy", "tab\there", "0123456789ABCDEF0123456789abcdef0123456789", "\uFEFFmark first", " padded ", "\r\n", "\uFEFF"}
 
 // GenFieldData produces wire bytes for a field with definition fd. pf may be
 // nil (unknown field).
